@@ -175,8 +175,8 @@ def parseCEnv (j : Json) : P CoerceEnv := do
          floatOf := ← (← pairs "float").mapM (fun (a, b) => do pure ((← str a), (← parseFlt b))),
          reprOf := ← (← pairs "repr").mapM (fun (a, b) => do pure ((← parseFlt a), (← str b))),
          boolWords := ← (← pairs "words").mapM (fun (a, b) => do pure ((← str a), (← bool' b))),
-         litFirst := ← (← pairs "lits").mapM (fun (a, b) => do
-            pure ((← (← arr a).toList.mapM parseLit), (← parseJClass b))) }
+         litTypes := ← (← pairs "lits").mapM (fun (a, b) => do
+            pure ((← (← arr a).toList.mapM parseLit), (← (← arr b).toList.mapM parseJClass))) }
 
 /-! encoders -/
 def ratStr (q : Rat) : String := s!"{q.num}/{q.den}"
